@@ -308,7 +308,7 @@ impl C18 {
             let rcx = ax.reg_read_64(SR::RCX).unwrap_or(0);
             let rsp = ax.reg_read_64(SR::RSP).unwrap_or(0);
             if steps % 5 == 2 {
-                if let Some(d) = perturb(&mut ax, rng, &Perturb { areas: true, hooks: true, clone: true }) {
+                if let Some(d) = perturb(&mut ax, rng, &Perturb { areas: true, hooks: true, clone: true, decoy: 0 }) {
                     return fail(col, "neutral-operation-visible", d, steps);
                 }
             }
